@@ -135,6 +135,10 @@ func zzC18ResolveVia(startDir string, depth int, label string, where bool) {
 		start = filepath.Join(dirs[1], ".ergo")
 	case "<abs-y-dotdot>":
 		start = dirs[2] + "/../y"
+	case "<abs-y-parent>":
+		start = dirs[2] + "/.." // names <root>/x
+	case "<abs-y-parent-slash>":
+		start = dirs[2] + "/../"
 	}
 	var got string
 	var err error
@@ -169,6 +173,9 @@ func zzC18_Resolve_AbsX()      { zzC18Resolve("<abs-x>", 1, "") }
 func zzC18_Resolve_AbsRoot()   { zzC18Resolve("<abs-root>", 0, "") }
 func zzC18_Resolve_AbsErgo()   { zzC18Resolve("<abs-x-ergo>", 1, "") }
 func zzC18_Resolve_AbsDotDot() { zzC18Resolve("<abs-y-dotdot>", 2, "") }
+func zzC18_Resolve_AbsParent()      { zzC18Resolve("<abs-y-parent>", 1, "[absolute --dir with ..]") }
+func zzC18_Resolve_AbsParentSlash() { zzC18Resolve("<abs-y-parent-slash>", 1, "[absolute --dir with ..]") }
+func zzC18_Resolve_RelParentOfY()   { zzC18Resolve("y/..", 1, "[relative --dir]") }
 func zzC18_Resolve_RelY()      { zzC18Resolve("y", 2, "[relative --dir]") }
 func zzC18_Resolve_RelDot()    { zzC18Resolve(".", 1, "[relative --dir]") }
 func zzC18_Resolve_RelDotDot() { zzC18Resolve("..", 0, "[relative --dir]") }
